@@ -14,23 +14,30 @@ FUNCTIONS = ['gaddlemaps.components._components:Molecule.__init__', 'gaddlemaps.
              'gaddlemaps.components._residue:Residue.atoms_positions', 'gaddlemaps.components._residue:Residue.atoms_velocities', 'gaddlemaps.components._residue:Residue.atoms_ids',
              'gaddlemaps._alignment:Alignment.start']
 EXPLANATION = ('Every sequence of up to 3 (quick) / 4 (thorough) operations over {move, move_to, rotate, read the geometric centre, set positions, set velocities, set atom '
-               'ids, set residue numbers, set residue names, assign through an indexed atom view, assign through an iterated atom view} is applied to one '
+               'ids, set residue numbers, set residue names, assign through an indexed atom view, assign through an iterated atom view, make an atom of each side refer to the same coordinate vector} is applied to one '
                'side of an (original, copy) pair built with every copy route (Molecule.copy / deep_copy, Residue.copy, AtomGro.copy, Atom.copy, '
                'Alignment.start on first assignment and on re-assignment of a complete alignment, Alignment.end on re-assignment), in both directions; all coordinates, velocities, the displacement, the target point and '
                'the rotation (elementary rotation (c,s) with c^2+s^2=1) are symbolic.  After every operation the untouched side must still carry '
                'its initial symbolic terms / numbers (isolation), a view assignment must be visible in the molecule, and for the rigid operations '
                'the SMT obligations are: positions = old + d (move), centre = requested point (move_to), all pairwise squared distances and the '
-               'centre preserved (rotate), a two-residue molecule rotated about the centre of the whole molecule.')
-BOUNDS = {'quick': {'sequences': 'all of length <= 3 over 11 operations (1463) x 9 copy routes x 2 directions', 'objects': '1-residue (2 atoms) and 2-residue (2+2 atoms) molecules, a residue, an atom'},
-          'thorough': {'sequences': 'all of length <= 4 (16104)'}}
+               'centre preserved (rotate), a three-residue molecule (2+2+1 atoms) rotated about the centre of the whole molecule.')
+BOUNDS = {'quick': {'sequences': 'all of length <= 3 over 12 operations (1884) x 9 copy routes x 2 directions', 'objects': '1-residue (2 atoms) and 3-residue (2+2+1 atoms) molecules, a residue, an atom'},
+          'thorough': {'sequences': 'all of length <= 4 (22620)'}}
 OUTSIDE = ['sequences of length up to 40 (no operation keeps hidden state: each operation is checked from the state left by all shorter prefixes)', 'binary64 rounding',
            'rotations are elementary ones about x, y, z (generators of SO(3))']
 STUBS = ['molecules built directly with the real classes']
 ASSUMPTIONS = ['c^2 + s^2 = 1 for the rotation', 'exact real arithmetic']
 CASE_TIMEOUT = {'quick': 900, 'thorough': 3000}
 
-OPS = ['move', 'move_to', 'rotate', 'set_pos', 'set_vel', 'set_ids', 'set_resids', 'set_resnames', 'view_index', 'view_iter', 'read_centre']
+OPS = ['move', 'move_to', 'rotate', 'set_pos', 'set_vel', 'set_ids', 'set_resids', 'set_resnames', 'view_index', 'view_iter', 'read_centre', 'share_vec']
 ROUTES = ['mol.copy', 'mol.deep_copy', 'mol2.copy', 'mol2.deep_copy', 'residue.copy', 'atomgro.copy', 'alignment.start', 'alignment.restart', 'alignment.reend']
+
+
+def _atoms_for(two):
+    """one residue of 2 atoms, or three residues of 2 + 2 + 1 atoms (a one-atom residue inside a multi-residue molecule)"""
+    if not two:
+        return 2, [('C0', 'RA', 1), ('C1', 'RA', 1)]
+    return 5, [('C0', 'RA', 1), ('C1', 'RA', 1), ('C2', 'RB', 2), ('C3', 'RB', 2), ('C4', 'RC', 3)]
 
 
 def cases(tier):
@@ -63,8 +70,7 @@ def run_case(case):
 
     def build():
         two = route.startswith('mol2')
-        n = 4 if two else 2
-        atoms = [('C%d' % i, 'RA' if (i < 2 or not two) else 'RB', 1 if (i < 2 or not two) else 2) for i in range(n)]
+        n, atoms = _atoms_for(two)
         X, Vv = fresh(n, 'x'), fresh(n, 'v')
         mol = make_molecule('MOL', atoms, [(i, i + 1) for i in range(n - 1)], X, velocities=Vv)
         if route in ('mol.copy', 'mol2.copy'):
@@ -138,7 +144,9 @@ def run_case(case):
             tagp = '%s %s, sequence %s step %d (%s)' % (route, direction, seq, step, op)
             if kind == 'atomgro':
                 # an atom has no rigid-body operations: assignments only
-                if op in ('move', 'move_to', 'rotate', 'set_pos', 'view_index', 'view_iter'):
+                if op == 'share_vec':
+                    T.position = P.position
+                elif op in ('move', 'move_to', 'rotate', 'set_pos', 'view_index', 'view_iter'):
                     T.position = fresh(1, 'np')[0]
                 elif op == 'set_vel':
                     T.velocity = fresh(1, 'nv')[0]
@@ -197,6 +205,12 @@ def run_case(case):
                     cxyz = (T.x, T.y, T.z)
                     if not all(z3.eq(z3.simplify(expr(cen[k])), z3.simplify(com0[k])) and z3.eq(z3.simplify(expr(cxyz[k])), z3.simplify(com0[k])) for k in range(3)):
                         prove(ctx, tagp + ': geometric centre = mean of the current positions', z3.And(*[expr(cen[k]) == com0[k] for k in range(3)] + [expr(cxyz[k]) == com0[k] for k in range(3)]), seq)
+                elif op == 'share_vec':
+                    # a legal assignment that makes an atom of each side refer to the very same coordinate vector (the
+                    # values of the untouched side do not change): later operations must still not leak through it
+                    T[0].position = P[0].position
+                    if not all(z3.eq(expr(a), expr(b)) for a, b in zip(T.atoms_positions[0], P.atoms_positions[0])):
+                        problems.append('step %d: assigning a position vector through the atom view is not visible' % step)
                 elif op in ('view_index', 'view_iter'):
                     newp = fresh(1, 'vp')[0]
                     atom = T[n - 1] if op == 'view_index' else list(T)[n - 1]
@@ -228,8 +242,7 @@ def replay(w):
     route, direction, seq = w['route'], w['dir'], w['seq']
     rs = np.random.RandomState(3)
     two = route.startswith('mol2')
-    n = 4 if two else 2
-    atoms = [('C%d' % i, 'RA' if (i < 2 or not two) else 'RB', 1 if (i < 2 or not two) else 2) for i in range(n)]
+    n, atoms = _atoms_for(two)
     X, Vv = rs.uniform(-2, 2, (n, 3)), rs.uniform(-1, 1, (n, 3))
     mol = make_molecule('MOL', atoms, [(i, i + 1) for i in range(n - 1)], X, velocities=Vv)
     kind = 'molecule'
@@ -272,7 +285,9 @@ def replay(w):
     bad = []
     for step, op in enumerate(seq):
         if kind == 'atomgro':
-            if op in ('move', 'move_to', 'rotate', 'set_pos', 'view_index', 'view_iter'):
+            if op == 'share_vec':
+                T.position = P.position
+            elif op in ('move', 'move_to', 'rotate', 'set_pos', 'view_index', 'view_iter'):
                 T.position = rs.uniform(-1, 1, 3)
             elif op == 'set_vel':
                 T.velocity = rs.uniform(-1, 1, 3)
@@ -316,6 +331,8 @@ def replay(w):
                     T.resnames = ['N%d' % i for i in range(len(T.resnames))]
                 elif kind == 'residue':
                     T.resname = 'Q'
+            elif op == 'share_vec':
+                T[0].position = P[0].position
             else:
                 newp = rs.uniform(-1, 1, 3)
                 atom = T[m_ - 1] if op == 'view_index' else list(T)[m_ - 1]
